@@ -2,6 +2,7 @@
 from __future__ import annotations
 
 import ast
+import re
 from typing import Optional
 
 from .. import asdl, pyflow, repo, typed
@@ -532,35 +533,59 @@ def rule_e5(chk: Check, ix: Index):
 
 # ------------------------------------------------------------------ E6/X3: parse() never returns None
 def rule_e6(chk: Check, ix: Index):
+    """parse() never returns None: on every path to a return, the returned name was tested not-None after its last
+    assignment, or the path passed a call of a helper that always raises.  Decided on the path set (blind to early returns
+    and if/else nesting)."""
+    from ..pyflow import stmt_paths
     f = ix.get("Parser.parse")
-    cfg = CFG(f.node)
-    tests = cfg.find(lambda n: n.kind == "test" and n.label == "res is None")
-    chk.count("E6-parse-total")
-    if len(tests) != 1:
-        chk.fail("E6-parse-total", "Parser.parse:none-test", f.where, "no `if res is None:` test in parse()")
-        return
-    t = tests[0]
-    # from the True edge every path must end in a call that always raises (raise_* helper whose own body always raises)
     always_raise = set()
     for g in ix.funcs.values():
         if g.cls == "Parser":
             c = CFG(g.node)
             if not c.reach([c.entry.id]) & {c.exit.id}:
                 always_raise.add(g.node.name)
-    raisers = [n.id for n in cfg.nodes if n.kind == "stmt" and isinstance(n.stmt, ast.Expr) and isinstance(n.stmt.value, ast.Call)
-               and isinstance(n.stmt.value.func, ast.Attribute) and n.stmt.value.func.attr in always_raise]
-    true_succ = [s for s, lab in t.succ if lab == "T"]
-    reach = cfg.reach([t.id], avoid=raisers, edge_ok=lambda a, b, lab: not (a == t.id and lab == "F"))
-    leaks = [cfg.nodes[i] for i in reach if cfg.nodes[i].kind in ("return", "exit")]
-    chk.require(not leaks and bool(raisers), "E6-parse-total", "Parser.parse:none-raises", f.where,
-                f"a path from `res is None` reaches {[n.label or n.kind for n in leaks][:2]} without passing a call that always "
-                f"raises (always-raising helpers: {sorted(always_raise)})")
     chk.units["always_raising_helpers"] = sorted(always_raise)
-    # the returns of parse(): only `return res` after the None test
-    rets = [n for n in cfg.nodes if n.kind == "return"]
+    try:
+        paths = stmt_paths([st for st in f.node.body])
+    except AnalysisError as e:
+        chk.count("E6-parse-total")
+        chk.undecided("E6-parse-total", "Parser.parse:none-raises", f.where, f"parse() is not straight-line decision code: {e}")
+        return
+    bad_ret, leaks, n_none = [], [], 0
+    for pth in paths:
+        kind, val = pth[-1][1], pth[-1][2]
+        if kind == "raise":
+            continue
+        if kind == "end":
+            leaks.append("falls off the end (returns None)")
+            continue
+        if not re.fullmatch(r"[A-Za-z_]\w*", val):
+            bad_ret.append(val)
+            continue
+        # walk backwards: facts about `val` since its last assignment
+        safe = False
+        for x in reversed(pth[:-1]):
+            if x[0] == "do" and re.match(rf"(\(?{val}\b[^=]*=[^=])|({val} = )", x[1]):
+                break
+            if x[0] == "cond" and ((x[1] == f"{val} is None" and x[2] is False) or (x[1] == f"{val} is not None" and x[2] is True)):
+                safe = True
+                break
+            if x[0] == "do":
+                m = re.match(r"self\.(\w+)\(", x[1])
+                if m and m.group(1) in always_raise:
+                    safe = True
+                    break
+        if any(x[0] == "cond" and ((x[1] == f"{val} is None" and x[2] is True) or (x[1] == f"{val} is not None" and x[2] is False)) for x in pth):
+            n_none += 1
+        if not safe:
+            leaks.append(f"return {val} without a not-None fact or an always-raising call")
     chk.count("E6-parse-total")
-    chk.require(all(n.label == "return res" for n in rets), "E6-parse-total", "Parser.parse:returns", f.where,
-                f"parse() returns something other than the checked result: {[n.label for n in rets]}")
+    chk.require(not leaks and n_none > 0 and bool(always_raise), "E6-parse-total", "Parser.parse:none-raises", f.where,
+                f"a path of parse() can hand None to the caller: {leaks[:2]} (always-raising helpers: {sorted(always_raise)})"
+                if leaks else "parse() never tests its result for None")
+    chk.count("E6-parse-total")
+    chk.require(not bad_ret, "E6-parse-total", "Parser.parse:returns", f.where,
+                f"parse() returns something other than a checked local: {bad_ret}")
 
 
 def rule_t4(chk: Check, ix: Index):
